@@ -152,6 +152,17 @@ func TestVerifConfMetrics(t *testing.T) {
 			report("metrics-relabel-keeps-groups", "metric.(*ConstGaugeCollector).UpdateLabels", fmt.Sprintf("%s: group g1 replaced after the label set grew: got %v want %v", kind, got, want))
 		}
 	}
+	// label tuples that concatenate to the same bytes are different series
+	{
+		evaluated++
+		m := newStorage()
+		m.SendBatch(batch(`{"group":"g1","name":"shape","action":"set","value":1,"labels":{"ns":"x"}}`+"\n"+`{"group":"g1","name":"shape","action":"set","value":2,"labels":{"pod":"x"}}`+"\n"+`{"group":"g1","name":"shape2","action":"set","value":3,"labels":{"a":"1","b":"23"}}`+"\n"+`{"group":"g1","name":"shape2","action":"set","value":4,"labels":{"a":"12","b":"3"}}`), lbl)
+		got := vcGather(t, m)
+		want := map[string]float64{"shape{hook=h,ns=x,pod=}": 1, "shape{hook=h,ns=,pod=x}": 2, "shape2{a=1,b=23,hook=h}": 3, "shape2{a=12,b=3,hook=h}": 4}
+		if fmt.Sprint(got) != fmt.Sprint(want) {
+			report("metrics-label-tuples-collide", "metric.HashLabelValues", fmt.Sprintf("got %v want %v", got, want))
+		}
+	}
 	// validation predicate: exhaustive over the field lattice of one operation
 	{
 		f := 1.0
@@ -197,5 +208,5 @@ func TestVerifConfMetrics(t *testing.T) {
 			}
 		}
 	}
-	fmt.Printf("CONF-STATS evaluated=%d scope=hand-picked metric batches on the real MetricStorage (grouped add/set, replace, expire, invalid batches, label set growing under stored series of three groups) + exhaustive field lattice of one operation (6 actions x group x name x value/buckets/set/add presence) for the validation predicate\n", evaluated)
+	fmt.Printf("CONF-STATS evaluated=%d scope=hand-picked metric batches on the real MetricStorage (grouped add/set, replace, expire, invalid batches, label set growing under stored series of three groups, label tuples with equal concatenation) + exhaustive field lattice of one operation (6 actions x group x name x value/buckets/set/add presence) for the validation predicate\n", evaluated)
 }
